@@ -278,6 +278,8 @@ func init() {
 	addTable(&tableSpec{name: "connect-intentions", rowPkg: structsPkg, rowType: "Intention", keyField: "ID", lower: true,
 		indexes: map[string]indexSpec{"source_destination": {kind: "multieq", fields: []string{"SourceNS", "SourceName", "DestinationNS", "DestinationName"}, lowers: []bool{true, true, true, true}}}})
 	addTable(&tableSpec{name: "index", rowPkg: statePkg, rowType: "IndexEntry", keyField: "Key", lower: true})
+	addTable(&tableSpec{name: "federation-states", rowPkg: structsPkg, rowType: "FederationState", keyField: "Datacenter", lower: true})
+	addTable(&tableSpec{name: "system-metadata", rowPkg: structsPkg, rowType: "SystemMetadataEntry", keyField: "Key", lower: true})
 	addTable(&tableSpec{name: "usage", rowPkg: statePkg, rowType: "UsageEntry", keyField: "ID", lower: true})
 	addTable(&tableSpec{name: "sessions", rowPkg: structsPkg, rowType: "Session", keyField: "ID", lower: true,
 		indexes: map[string]indexSpec{"node": {kind: "fieldeq", field: "Node", lower: true}, "id_prefix": {kind: "prefix"}}})
